@@ -272,7 +272,7 @@ func printDoc(d *ast.QueryDocument) string {
 }
 
 var DecorKinds = []string{"alias", "aliasSib", "aliasParent", "aliasId", "idAliased", "typename", "fragT", "fragN", "fragAbs", "id",
-	"incLit", "skipLitFalse", "skipVar", "incVar", "argVar", "argVarNamedId", "argVarDefault", "argVarNull", "varTwice", "dup", "dupFirst", "named", "namedTwice", "opName"}
+	"incLit", "skipLitFalse", "skipVar", "incVar", "argVar", "argVarNamedId", "argVarDefault", "argVarNull", "varTwice", "dup", "dupFirst", "sameKeyTwice", "splitKey", "splitKeyFrag", "named", "namedTwice", "opName"}
 
 // Decorate returns all single-decoration variants of q.
 func Decorate(s *ast.Schema, q string) []Case {
@@ -444,6 +444,31 @@ func Decorate(s *ast.Schema, q string) []Case {
 				// the aliased copy comes first, the plain field after it
 				f.Alias = "b"
 				ok = appendSibling(&op.SelectionSet, f, func(c *ast.Field) { c.Alias = c.Name })
+			case "sameKeyTwice":
+				// the identical selection once more under the same response key (field merging)
+				ok = appendSibling(&op.SelectionSet, f, func(c *ast.Field) {})
+			case "splitKey":
+				// f { a b } written as f { a } f { b }: one response key, sub-selections to be merged
+				if len(f.SelectionSet) < 2 {
+					ok = false
+				} else {
+					all := f.SelectionSet
+					h := len(all) / 2
+					f.SelectionSet = append(ast.SelectionSet{}, all[:h]...)
+					ok = appendSibling(&op.SelectionSet, f, func(c *ast.Field) { c.SelectionSet = append(ast.SelectionSet{}, all[h:]...) })
+				}
+			case "splitKeyFrag":
+				// f { a b } written as f { a } ... { f { b } }: the second half arrives through an untyped inline fragment
+				if len(f.SelectionSet) < 2 {
+					ok = false
+				} else {
+					all := f.SelectionSet
+					h := len(all) / 2
+					f.SelectionSet = append(ast.SelectionSet{}, all[:h]...)
+					wrapNext = true
+					ok = appendSibling(&op.SelectionSet, f, func(c *ast.Field) { c.SelectionSet = append(ast.SelectionSet{}, all[h:]...) })
+					wrapNext = false
+				}
 			case "named", "namedTwice":
 				if !hasSel || ft.Kind != ast.Object {
 					ok = false
@@ -467,6 +492,9 @@ func Decorate(s *ast.Schema, q string) []Case {
 	return out
 }
 
+// wrapNext makes appendSibling put the copy inside an untyped inline fragment.
+var wrapNext bool
+
 func appendSibling(root *ast.SelectionSet, f *ast.Field, mod func(*ast.Field)) bool {
 	var rec func(ss *ast.SelectionSet) bool
 	rec = func(ss *ast.SelectionSet) bool {
@@ -476,7 +504,11 @@ func appendSibling(root *ast.SelectionSet, f *ast.Field, mod func(*ast.Field)) b
 				if s == f {
 					c := *f
 					mod(&c)
-					*ss = append(*ss, &c)
+					if wrapNext {
+						*ss = append(*ss, &ast.InlineFragment{SelectionSet: ast.SelectionSet{&c}})
+					} else {
+						*ss = append(*ss, &c)
+					}
 					return true
 				}
 				if rec(&s.SelectionSet) {
